@@ -1,29 +1,41 @@
 import HqModel.Alloc.Run
 /-!
-The admission decision (`has_resources_for_request`) does not depend on which of the allowed solver answers was
-recorded: it is the choice-free function `admitSpec`. Consequently `is_enabled` and `try_allocate` agree.
+The admission decision (`has_resources_for_request`) depends on the recorded solver answers only through the
+objective value of the first one (the answer for the current free state) and, when the strict-policy cache has no
+entry yet, of the second one (the answer for the empty worker): `admitWith`.
 -/
 namespace HqModel.Alloc
 
-/-- the admission decision and the resulting strict-policy cache, with the solver replaced by the brute-force
-optimum (`Lp.optimum`) -/
-def admitSpec (s : State) (rq : Request) : Bool × List (Request × Int) :=
+/-- objective value of the first recorded answer (`none`: no record, or the solver found the problem infeasible) -/
+def curObj : List (Option SolRec) → Option Int
+  | some r :: _ => some r.obj
+  | _ => none
+
+/-- objective value of the second recorded answer -/
+def bestObj : List (Option SolRec) → Option Int
+  | _ :: some r :: _ => some r.obj
+  | _ => none
+
+/-- the admission decision and the resulting strict-policy cache as a function of the objective value `cur` the solver
+reported for the current free state and `best` it reported for the empty worker -/
+def admitWith (s : State) (rq : Request) (cur best : Option Int) : Bool × List (Request × Int) :=
   if !rq.all (entryHasResources s.pools s.concise) then (false, s.cache) else
   let coupled := coupledEntries s.pools rq
   if coupled.all (fun e => !e.policy.forced) then (true, s.cache) else
-  match (mkLp s.concise coupled s.weights).optimum with
+  match cur with
   | none => (false, s.cache)
   | some cur =>
     match cacheGet s.cache rq with
     | some cost => (decide (cost ≤ cur), s.cache)
     | none =>
-      match (mkLp s.allFree coupled s.weights).optimum with
-      | none => (false, s.cache)
-      | some best => (decide (best - strictMargin ≤ cur), (rq, best - strictMargin) :: s.cache)
+      -- (`best = none` cannot happen here: the real code unwraps the answer for the empty worker)
+      let best := best.getD 0
+      (decide (best - strictMargin ≤ cur), (rq, best - strictMargin) :: s.cache)
 
 theorem groupSolver_some {free : List CState} {coupled : List Entry} {ws : List Weight} {r : Option SolRec}
     {x : SolRec} (h : groupSolver free coupled ws r = .ok (some x)) :
-    (mkLp free coupled ws).optimum = some x.obj ∧ (mkLp free coupled ws).feasible x.sets = true ∧ r = some x := by
+    r = some x ∧ (mkLp free coupled ws).feasible x.sets = true ∧ x.obj = (mkLp free coupled ws).objective x.sets ∧
+      ∃ opt, (mkLp free coupled ws).optimum = some opt ∧ withinGap opt x.obj = true := by
   unfold groupSolver at h
   dsimp only at h
   split at h
@@ -33,11 +45,16 @@ theorem groupSolver_some {free : List CState} {coupled : List Entry} {ws : List 
       simp only [Except.ok.injEq] at h
       subst h
       simp only [solverAllowed, Bool.and_eq_true, beq_iff_eq] at hall
-      exact ⟨hall.2, hall.1.1, rfl⟩
+      obtain ⟨⟨hf, ho⟩, hg⟩ := hall
+      refine ⟨rfl, hf, ho, ?_⟩
+      split at hg
+      · rename_i opt hopt
+        exact ⟨opt, hopt, hg⟩
+      · cases hg
     · cases h
 
 theorem groupSolver_none {free : List CState} {coupled : List Entry} {ws : List Weight} {r : Option SolRec}
-    (h : groupSolver free coupled ws r = .ok none) : (mkLp free coupled ws).optimum = none := by
+    (h : groupSolver free coupled ws r = .ok none) : r = none ∧ (mkLp free coupled ws).optimum = none := by
   unfold groupSolver at h
   dsimp only at h
   split at h
@@ -46,15 +63,15 @@ theorem groupSolver_none {free : List CState} {coupled : List Entry} {ws : List 
     · rename_i hall
       simp only [Except.ok.injEq] at h
       subst h
-      simpa [solverAllowed] using hall
+      exact ⟨rfl, by simpa [solverAllowed] using hall⟩
     · cases h
 
-/-- whatever allowed answers were recorded, the decision is `admitSpec` -/
-theorem hasResources_spec {s : State} {rq : Request} {sols rest : List (Option SolRec)} {b : Bool}
+/-- the decision is `admitWith` of the recorded objective values -/
+theorem hasResources_with {s : State} {rq : Request} {sols rest : List (Option SolRec)} {b : Bool}
     {cache : List (Request × Int)} (h : hasResources s rq sols = .ok (b, cache, rest)) :
-    admitSpec s rq = (b, cache) := by
+    admitWith s rq (curObj sols) (bestObj sols) = (b, cache) := by
   unfold hasResources at h
-  unfold admitSpec
+  unfold admitWith
   split at h
   · rename_i h1
     simp only [Except.ok.injEq, Prod.mk.injEq] at h
@@ -72,16 +89,17 @@ theorem hasResources_spec {s : State} {rq : Request} {sols rest : List (Option S
       rw [if_neg h2]
       split at h
       · cases h
-      · split at h
+      · rename_i r1 sols1
+        split at h
         · cases h
         · rename_i hs
           simp only [Except.ok.injEq, Prod.mk.injEq] at h
           obtain ⟨rfl, rfl, -⟩ := h
-          rw [groupSolver_none hs]
+          obtain ⟨rfl, -⟩ := groupSolver_none hs
+          simp [curObj]
         · rename_i cur hs
-          obtain ⟨hopt, -, -⟩ := groupSolver_some hs
-          rw [hopt]
-          dsimp only
+          obtain ⟨rfl, -, -, -⟩ := groupSolver_some hs
+          simp only [curObj]
           split at h
           · rename_i cost hc
             simp only [Except.ok.injEq, Prod.mk.injEq] at h
@@ -92,34 +110,45 @@ theorem hasResources_spec {s : State} {rq : Request} {sols rest : List (Option S
             dsimp only
             split at h
             · cases h
-            · split at h
+            · rename_i r2 sols2
+              split at h
               · cases h
               · cases h
               · rename_i best hs2
-                obtain ⟨hopt2, -, -⟩ := groupSolver_some hs2
+                obtain ⟨rfl, -, -, -⟩ := groupSolver_some hs2
                 simp only [Except.ok.injEq, Prod.mk.injEq] at h
                 obtain ⟨rfl, rfl, -⟩ := h
-                rw [hopt2]
+                simp only [bestObj, Option.getD_some]
+                rfl
 
 theorem cacheGet_cons_self (rq : Request) (v : Int) (m : List (Request × Int)) :
     cacheGet ((rq, v) :: m) rq = some v := by
   simp [cacheGet]
 
-/-- asking again with the cache the first question left behind gives the same answer -/
-theorem admitSpec_idem (s : State) (rq : Request) :
-    (admitSpec { s with cache := (admitSpec s rq).2 } rq).1 = (admitSpec s rq).1 := by
+/-- asking again with the cache the first question left behind gives the same answer, provided the solver reports the
+same objective value for the current free state (whatever it reports for the empty worker) -/
+theorem admitWith_idem (s : State) (rq : Request) (cur best best' : Option Int) :
+    (admitWith { s with cache := (admitWith s rq cur best).2 } rq cur best').1 = (admitWith s rq cur best).1 := by
   by_cases h1 : (!rq.all (entryHasResources s.pools s.concise)) = true
-  · simp [admitSpec, h1]
+  · simp [admitWith, h1]
   by_cases h2 : (coupledEntries s.pools rq).all (fun e => !e.policy.forced) = true
-  · simp [admitSpec, h1, h2]
-  cases hcur : (mkLp s.concise (coupledEntries s.pools rq) s.weights).optimum with
-  | none => simp [admitSpec, h1, h2, hcur]
+  · simp [admitWith, h1, h2]
+  cases cur with
+  | none => simp [admitWith, h1, h2]
   | some cur =>
     cases hc : cacheGet s.cache rq with
-    | some cost => simp [admitSpec, h1, h2, hcur, hc]
-    | none =>
-      cases hbest : (mkLp s.allFree (coupledEntries s.pools rq) s.weights).optimum with
-      | none => simp [admitSpec, h1, h2, hcur, hc, hbest]
-      | some best => simp [admitSpec, h1, h2, hcur, hc, hbest, cacheGet_cons_self]
+    | some cost => simp [admitWith, h1, h2, hc]
+    | none => simp [admitWith, h1, h2, hc, cacheGet_cons_self]
+
+/-- in the paths that do not consult the solver the recorded values are irrelevant -/
+theorem admitWith_nonforced (s : State) (rq : Request) (cur cur' best best' : Option Int)
+    (h : (!rq.all (entryHasResources s.pools s.concise)) = true ∨
+      (coupledEntries s.pools rq).all (fun e => !e.policy.forced) = true) :
+    admitWith s rq cur best = admitWith s rq cur' best' := by
+  by_cases h1 : (!rq.all (entryHasResources s.pools s.concise)) = true
+  · simp [admitWith, h1]
+  · rcases h with h | h
+    · exact absurd h h1
+    · simp [admitWith, h1, h]
 
 end HqModel.Alloc
